@@ -18,6 +18,7 @@ from datetime import date, timedelta
 
 from harness import core
 from harness.props import _sched_common as SC
+from harness.props import _sched_hardening as H
 
 MANIFEST_ENTRY = {
     "text": "Lean theorems (Props/C06.lean) over the planner/schedule model, for every configuration and every multi-year history of days with arbitrary crew outcomes: requests_guarded (a routine request is issued only in a deployment year and month, with done < required for the year, no outstanding request and the plan date reached) and not_deployed_never_requested (frequency forced to 0 where the method is not deployed: never a request); done_le_required_partial (completed <= required for every site and year, by an invariant over the history, provided no carried-over survey completes in a year without requirement); all_done_when_feasible (if every request completes the day it is issued, plan dates are increasing, simulated and inside deployment months, then done = required after every full deployment year: induction over the days of the year); stationary_once_per_workable_day / C06_stationary (a deployed site is planned on every day of its calendar, observed iff workable, never twice), stationary_guard_ignores_done + stationary_every_workable_day (in a fully workable period every day is observed: 366 in a leap year), counted_on_completion_year (every kind of schedule books a completion once, on the completion day's year), not_deployed_never_planned / not_deployed_never_surveyed (never in a work plan, never counted where the method is not deployed), done_le_required_static (the count bound under the static decidable hypothesis StaticYears), calendar_partial / calendar_when_nothing_carried (only a carried request can be served outside the deployment calendar), all_done_in_year_from_quiet. The full-strength statement C06_statement is proved false of the code as it stands (C06_counterexample: a request issued in the deployment month is served after it; C06_count_counterexample: a survey carried over New Year is booked on a year without requirement; C06_feasible_counterexample: the real plan for months [2,5,10] x 4 has a date in November) — known findings F12/F15, replayed on the real classes on every run. The model is tied to the real planner/schedule/work-plan/queue classes by day-by-day differential correspondence over multi-year loops; the plan hypothesis is measured on the real _generate_evenly_spaced_dates for month subsets x frequencies 1..24; the clauses are evaluated directly on component and whole-simulation traces.",
@@ -51,6 +52,14 @@ def plan_hypothesis(st):
     return all(a < b for a, b in zip(pl, pl[1:])) and all(p[0] in st["months"] for p in pl)
 
 
+def expected_sim_years(case):
+    """the calendar years of the simulated period as documented for the planner: every year from the start year
+    to the end year, the last one only if the period reaches the anniversary of the start date in it"""
+    s, e = SC.D(case["start"]), SC.D(case["end"])
+    last = e.year if (e.month, e.day) >= (s.month, s.day) else e.year - 1
+    return list(range(s.year, last + 1))
+
+
 def expected_static(ctx, case, static):
     """what the planners must hold according to the CONFIGURATION (deployment years: the configured list,
     all simulated years when it is empty; required surveys: the frequency where the method is deployed,
@@ -66,7 +75,13 @@ def expected_static(ctx, case, static):
             continue
         years = list(cs.get("years") or [])
         e = dict(st)
-        e["dep_years"] = years if years else list(st["sim_years"])
+        if case.get("method_class") != "wholerun":
+            e["sim_years"] = expected_sim_years(case)
+            if e["sim_years"] != list(st["sim_years"]):
+                ctx.violate("C06:config:planner-counter-years-differ-from-simulated-period",
+                            f"site {st['site']}: period {case['start']}..{case['end']} gives years {e['sim_years']}, "
+                            f"the planner keeps counters for {st['sim_years']}", {"case": case, "site": st["site"]})
+        e["dep_years"] = years if years else list(e["sim_years"])
         if stationary:
             e["rs"] = 365 if cs.get("deploy", True) else 0
         else:
@@ -112,10 +127,18 @@ def oracle_trace(ctx, case, static, trace, feasible=False):
     prev = {st["site"]: {"queued": 0, "done": {}} for st in static}
     stationary = case["kind"] == "stationary"
     by_report = {}
+    outstanding_now = set()      # sites in the queue after the previous day (read from the queue content)
     for k, rec in enumerate(trace):
         y, m, d = rec["date"]
         before_done = {i: dict(v["done"]) for i, v in prev.items()}
+        outstanding_prev = set(outstanding_now)
         inp = {"case": case, "day": k, "date": rec["date"]}
+        seen = set(rec.get("plan") or []) | set(rec.get("issued") or []) | {e[2] for e in rec.get("queue") or []}
+        if not seen <= set(stat):
+            ctx.violate("C06:history:request-of-a-site-that-is-not-in-this-schedule",
+                        f"sites {sorted(seen - set(stat))} are planned / queued on {rec['date']} but the method was built "
+                        f"for {sorted(stat)}", inp)
+            break
         if rec["crash"] and rec["crash"] != "key_error":
             ctx.violate("C06:crash:" + rec["crash"], f"{rec['crash']} raised by the schedule on {rec['date']}", inp)
             break
@@ -141,13 +164,16 @@ def oracle_trace(ctx, case, static, trace, feasible=False):
         # ---- guard of every issued request (independent re-evaluation)
         for i in rec["issued"]:
             st = stat[i]
-            dn = prev[i]["done"].get(y, 0)
+            dn = by_report.get((i, y), 0)          # completed reports dated this year, not the planner's counter
+            if dn != prev[i]["done"].get(y, 0):
+                ctx.violate("C06:count:planner-counter-differs-from-completed-reports",
+                            f"site {i}: {dn} completed reports dated {y}, planner counter {prev[i]['done'].get(y, 0)}", inp)
             why = None
             if y not in st["dep_years"]:
                 why = "year-not-deployed"
             elif m not in st["months"]:
                 why = "month-not-deployed"
-            elif prev[i]["queued"]:
+            elif i in outstanding_prev:
                 why = "already-outstanding"
             elif stationary:
                 if required_of(st, y) <= 0:
@@ -257,6 +283,7 @@ def oracle_trace(ctx, case, static, trace, feasible=False):
         for o in rec["outcomes"]:
             if o[1] == "C":
                 issued_on.pop(o[0], None)
+        outstanding_now = {e[2] for e in rec["queue"]}
         ctx.count("oracle_days")
     # ---- all of them when feasible: every full deployment year of the run
     if feasible and trace and not trace[-1]["crash"] and not stationary:
@@ -342,7 +369,7 @@ def loop_case(rng, feasible=False, stationary=False):
         case["forced"] = None
     else:
         case["forced"] = forced
-    return case
+    return H.decorate(rng, case)
 
 
 def straddle_case(rng):
@@ -378,6 +405,26 @@ def leap_case(rng, outs=False):
             "crews": 1, "cap": None, "T": 0, "hours": 8, "forced": None, "weather": weather,
             "sites": [{"id": i + 1, "freq": None, "deploy": True, "months": list(range(1, 13)), "years": [],
                        "S": 60} for i in range(ns)]}
+
+
+def short_period_cases():
+    """periods of 1 and 2 days, Dec 31 / Jan 1, Feb 28 / 29 / Mar 1, periods not starting Jan 1 / not ending Dec 31,
+    the same period shifted by exactly one year"""
+    out = []
+    for (start, end, nd) in [([2024, 12, 31], [2024, 12, 31], 1), ([2024, 1, 1], [2024, 1, 1], 1),
+                             ([2024, 2, 29], [2024, 2, 29], 1), ([2024, 2, 28], [2024, 3, 1], 3),
+                             ([2023, 2, 28], [2023, 3, 1], 2), ([2024, 12, 31], [2025, 1, 1], 2),
+                             ([2023, 12, 31], [2024, 1, 1], 2), ([2024, 3, 15], [2025, 3, 14], 365),
+                             ([2025, 3, 15], [2026, 3, 14], 365), ([2024, 3, 15], [2025, 3, 15], 366),
+                             ([2023, 7, 1], [2024, 6, 30], 366)]:
+        for kind in ("routine", "stationary"):
+            for freq in (1, 12):
+                out.append({"kind": kind, "method_class": "site", "start": start, "end": end, "ndays": nd,
+                            "crews": 1, "cap": 2 if kind == "routine" else None, "T": 0, "hours": 8, "weather": [],
+                            "forced": [] if kind == "routine" else None,
+                            "sites": [{"id": i + 1, "freq": freq, "deploy": True, "months": list(range(1, 13)),
+                                       "years": [], "S": 60} for i in range(3)]})
+    return out
 
 
 def year_list_cases():
@@ -481,7 +528,7 @@ def plan_stage(ctx):
     ctx.count("plan_pairs_hypothesis_fails", len(bad))
     # where the hypothesis fails: does the real planner still reach the count in a full feasible year?
     ctx.rng.shuffle(bad)
-    todo = bad[: ctx.pick(150, 2000)]
+    todo = bad[: ctx.pick(110, 1500)]
     if ctx.quick and not any(m == [2, 5, 10] and f == 4 for m, f, _ in todo):
         todo += [(m, f, p) for m, f, p in bad if m == [2, 5, 10] and f == 4]
     reached = short = 0
@@ -490,7 +537,7 @@ def plan_stage(ctx):
         cases.append(feasible_year_case(months, f, bad_year=any(p[2] != 2023 for p in pl)))
     ok_sample = []
     rng = ctx.rng
-    for _ in range(ctx.pick(40, 400)):
+    for _ in range(ctx.pick(30, 400)):
         months = month_subset(rng)
         cases.append(feasible_year_case(months, rng.randint(1, 24)))
     metas = run_loop_cases(ctx, cases, feasible=True, tag="plan")
@@ -530,7 +577,10 @@ def run_loop_cases(ctx, cases, feasible=False, tag="loop", chunk=40):
     for a in range(0, len(cases), chunk):
         batches, metas = [], []
         for case in cases[a:a + chunk]:
-            static, trace = A.run_routine(case, forced=case.get("forced"))
+            r = H.drive(ctx, "C06", A.run_routine, case, forced=case.get("forced"))
+            if r is None:
+                continue
+            static, trace = r
             req, exp = SC.lines_routine(case, static, trace)
             batches.append(req)
             metas.append((case, static, trace, req, exp))
@@ -542,7 +592,14 @@ def run_loop_cases(ctx, cases, feasible=False, tag="loop", chunk=40):
             ctx.count(f"corr:{tag}:{case['kind']}" + (":ok" if ok else ":DIFF"))
             ctx.traces += 1
             ctx.count("days", len(trace))
-            oracle_trace(ctx, pub, static, trace, feasible=feasible or case.get("_feasible", False))
+            try:
+                oracle_trace(ctx, pub, static, trace, feasible=feasible or case.get("_feasible", False))
+            except Exception as e:  # an implementation trace of a shape the oracle cannot read
+                import traceback
+                ctx.broke(f"C06: oracle could not evaluate an implementation trace ({type(e).__name__})",
+                          str({k_: v for k_, v in pub.items() if k_ not in ("weather", "forced")})[:1200] + "\n"
+                          + traceback.format_exc()[-1200:])
+                continue
             k = nontrivial_key(case, static, trace)
             if k is not None:
                 ctx.nontrivial.add(k)
@@ -661,10 +718,23 @@ def run(ctx):
     witnesses(ctx)
     run_loop_cases(ctx, boundary_cases(), tag="boundary")
     run_loop_cases(ctx, year_list_cases(), tag="year-lists")
-    cases = [loop_case(rng) for _ in range(ctx.pick(45, 450))]
+    run_loop_cases(ctx, short_period_cases(), tag="short-periods")
+    # hardening stages (audit/LESSONS.md 1): shared-state table, same-process history, shared input
+    table_ok = H.shared_state_table(ctx, "C06")
+
+    def small(r):
+        c = loop_case(r)
+        c["ndays"] = min(c["ndays"], 90)
+        c["forced"] = [f for f in (c.get("forced") or []) if f[0] < 90]
+        return c
+
+    H.history_stage(ctx, "C06", H.colliding_pairs(rng, small, ctx.pick(10, 100) * (1 if table_ok else 6)))
+    H.shared_input_stage(ctx, "C06", [small(rng) for _ in range(ctx.pick(20, 150))]
+                         + [loop_case(rng, stationary=True) for _ in range(ctx.pick(5, 50))])
+    cases = [loop_case(rng) for _ in range(ctx.pick(34, 350))]
     cases += [loop_case(rng, stationary=True) for _ in range(ctx.pick(30, 300))]
     metas = run_loop_cases(ctx, cases)
-    cases = [straddle_case(rng) for _ in range(ctx.pick(40, 600))]
+    cases = [straddle_case(rng) for _ in range(ctx.pick(40, 400))]
     cases += [leap_case(rng) for _ in range(ctx.pick(3, 25))] + [leap_case(rng, outs=True) for _ in range(ctx.pick(3, 25))]
     # the steady state after a New-Year straddle: 6 sites of 1200 minutes, one crew, 4 surveys a year, Nov 1 start
     cases.append({"kind": "routine", "method_class": "site", "start": [2025, 11, 1], "end": [2026, 12, 31], "ndays": 426,
@@ -672,7 +742,7 @@ def run(ctx):
                   "sites": [{"id": i + 1, "freq": 4, "deploy": True, "months": list(range(1, 13)), "years": [],
                              "S": 1200} for i in range(6)]})
     run_loop_cases(ctx, cases, tag="newyear-leap")
-    feas = [loop_case(rng, feasible=True) for _ in range(ctx.pick(18, 200))]
+    feas = [loop_case(rng, feasible=True) for _ in range(ctx.pick(18, 150))]
     run_loop_cases(ctx, feas, feasible=True, tag="feasible")
     plan_stage(ctx)
     for (case, static, summ) in metas[:2]:
@@ -707,6 +777,11 @@ def replay(ctx, data):
     from harness.adapters import sched as A
 
     inp = data.get("input", {})
+    if inp.get("history"):
+        H.history_stage(ctx, "C06", [(inp["case"], inp["earlier_case"])])
+        for v in ctx.violations:
+            print("oracle:", v["signature"], "-", v["what"])
+        return 1 if ctx.violations else 0
     if inp.get("wholerun") or (inp.get("case") or {}).get("wholerun"):
         from harness.props import _sched_wholerun as W
 
